@@ -11,7 +11,7 @@ from .. import dhops, hops, nets, scops
 PID = "C07"
 RULE = (
     "case = network of one of the three classes (any label kind, explicit IDs incl. 0, empty edges, isolated nodes, "
-    "nested list/dict attribute values) + derivation (copy / pickle round trip / constructor of its own class / "
+    "nested list/dict attribute values, tuples holding lists) + derivation (copy / pickle round trip / constructor of its own class / "
     "copy of a copy) + an edit history applied to a drawn side (source or derived) + in-place mutation of nested "
     "attribute values reached through the derived network + 1-3 automatic additions on both sides. Oracle: equal "
     "observable snapshots right after the derivation; the untouched side's deep snapshot (incl. next automatic ID) is "
